@@ -353,14 +353,15 @@ func c11Encoder(c *Ctx, p *Prog, m *Model) {
 		}
 		r.Check(ok, "R11.3", "print->set", p.FuncPos(pr), "the encoder is configured from the emitting logger", "Entry.print does not configure the encoder from its own receiver")
 	}
-	// printImpl's format branch is on pc.noColor; printers' JSON/logfmt split on pc.jsonMode
-	if pi := p.Method(p.Slog, "Entry", "printImpl"); pi != nil {
-		uses := false
-		for _, a := range condAtomsOf(pi, func(v ssa.Value) string { return m.condDesc(v) }) {
-			if a == "PrintCtx.noColor" {
-				uses = true
-			}
+	// the printers used are those of the logger's format: decided per mode by the record-order rule (mode bits
+	// pruned), whatever function holds the branch
+	for _, mode := range feasibleModes {
+		msgPrinter := "printMsg"
+		opt := map[string]bool{"printPC": true, "printRestLinesOfMsg": true}
+		if !mode.NoColor {
+			msgPrinter = "printFirstLineOfMsg"
+			opt = map[string]bool{"printPC": true}
 		}
-		r.Check(uses, "R11.3", "printImpl:format-branch", p.FuncPos(pi), "the top-level format branch tests the encoder's noColor bit", "printImpl no longer branches on the encoder's noColor bit")
+		fieldOrder(c, p, m, mode, "R11.3", []string{"Begin", "printTimestamp", "printLoggerName", "printSeverity", msgPrinter, "serializeAttrs", "printPC", "printRestLinesOfMsg", "End", "Bytes", "printOut"}, opt)
 	}
 }
